@@ -10,7 +10,7 @@ from pathlib import Path
 import z3
 
 from . import contracts as C
-from . import lib_arr, lib_frame, lib_fs, lib_np, lib_pd, lib_queue, lib_vec  # noqa: F401  (register library models)
+from . import lib_arr, lib_frame, lib_fs, lib_np, lib_pd, lib_queue, lib_tp, lib_vec  # noqa: F401  (register library models)
 from . import solve
 from .engine import Contract, Exec, Obligation, Unsupported, Verifier
 from .source import INDEX
